@@ -29,7 +29,13 @@ def run(prop, tier, verdict):
     allc = cases(wd)
     if len(allc) < 40000:
         raise Broken('Plugins.tla exported only %d trees' % len(allc))
-    scen = allc if tier == 'thorough' else random.Random(seedv).sample(allc, 2500)
+    # second class of Plugins.tla (how the global lists came into being; both sibling routes called): sampled on its own
+    origc = [c for c in allc if c.get('origin')]
+    treec = [c for c in allc if not c.get('origin')]
+    if len(treec) < 40000 or len(origc) < 20000:
+        raise Broken('Plugins.tla exported only %d placement trees and %d list-origin scenarios' % (len(treec), len(origc)))
+    rnd = random.Random(seedv)
+    scen = treec + origc if tier == 'thorough' else rnd.sample(treec, 2500) + rnd.sample(origc, 1500)
     for i, s in enumerate(scen):
         s['id'] = 'p%d' % i
     scfile = os.path.join(wd, 'scen.ndjson')
@@ -58,12 +64,18 @@ def run(prop, tier, verdict):
         s = by_id.get(rj['t'], {})
         line = rj['line']
         what = line.get('ev') + (':%s.%s' % (line.get('pl'), line.get('stage')) if line.get('ev') == 'Hook' else '')
+        if line.get('ev') == 'Fatal':
+            what += ':' + str(line.get('msg')).split(':')[0].strip().replace(' ', '-')[:40]
         sig = '%s:tree:%s/nl=%s,nr=%s,depth=%s,sib=%s,late=%s,veto=%s' % (prop, what, s.get('nl'), s.get('nr'), s.get('depth'), s.get('sib'), s.get('late'), s.get('vetopl'))
+        if s.get('origin'):
+            sig += ',origin=%s' % s.get('origin')
         verdict.report(sig, {'rejected_event': line, 'previous_event': rj['prev']},
                        {'engine': 'plug', 'scenario': s, 'trace': [json.loads(x) for x in lines_by_t.get(rj['t'], [])]})
-    nontriv = [s for s in scen if s['depth'] > 0 or s['late'] != 'none' or s['vetopl'] != 'none']
+    nontriv = [s for s in scen if s['depth'] > 0 or s['late'] != 'none' or s['vetopl'] != 'none' or s.get('origin')]
     cov = {'plug_scenarios': len(scen), 'plug_trees_total': len(allc), 'plug_traces': acc + len(rej), 'plug_rejected': len(rej),
            'plug_nontrivial': len(nontriv), 'plug_exhaustive': tier == 'thorough',
-           'plug_sample': {k: scen[0][k] for k in ('nl', 'nr', 'depth', 'gp', 'sib', 'hp', 'late', 'target', 'vetopl', 'vstage', 'exphooks')}}
+           'plug_sample': {k: scen[0][k] for k in ('nl', 'nr', 'depth', 'gp', 'sib', 'hp', 'late', 'target', 'vetopl', 'vstage', 'exphooks')},
+           'plug_origin_scenarios': len([s for s in scen if s.get('origin')]), 'plug_origin_total': len(origc),
+           'plug_origin_sample': {k: scen[-1].get(k) for k in ('origin', 'build', 'left', 'right', 'depth', 'gp', 'hp', 'late', 'order', 'vetopl', 'vstage', 'calls')}}
     vlib.cleanup(wd)
     return cov, time.time() - t0
